@@ -91,6 +91,20 @@ def ground(ob, ctx, rounds=None, max_terms=100):
         ctx._grounding -= 1
 
 
+_TKEY = {}
+
+
+def _term_key(t):
+    k = t.get_id()
+    r = _TKEY.get(k)
+    if r is None:
+        sx = t.sexpr()
+        r = (len(sx), sx)
+        _TKEY[k] = (r, t)
+        return r
+    return r[0]
+
+
 def _ground(ob, ctx, rounds=2, max_terms=60):
     sums = getattr(ctx, "sums", [])
     exts = getattr(ctx, "exts", [])
@@ -153,7 +167,8 @@ def _ground(ob, ctx, rounds=2, max_terms=60):
                     a, b = a1.arg(0), a1.arg(1)
                     extra.append(z3.Implies(a1 != a2, z3.And(a <= w, w < b, s1.body(w) != s2.body(w))))
                     terms.setdefault(w.get_id(), w)
-        tl = list(terms.values())[:max_terms]
+        # deterministic choice of instantiation terms: small terms first (ids / insertion order vary between runs)
+        tl = sorted(terms.values(), key=_term_key)[:max_terms]
         for qi, qa in enumerate(ob.qassumes or []):
             if getattr(qa, "arity", 1) == 2:
                 pl = tl[:16]
@@ -303,7 +318,7 @@ def solve_all(ctx, obligations, timeout_ms, procs=None):
 
     n = len(obligations)
     if procs is None:
-        procs = 1 if n < 150 else (2 if n < 500 else 4)
+        procs = 1 if n < 200 else (2 if n < 800 else 3)
     if procs <= 1:
         return [one(ob) for ob in obligations]
     slices = [list(range(k, n, procs)) for k in range(procs)]
